@@ -1,0 +1,131 @@
+//go:build verif
+
+package isaacstates
+
+import (
+	"github.com/pkg/errors"
+	"github.com/spikeekips/mitum/base"
+)
+
+// Verification hooks (build tag verif): a States whose handlers are stubs
+// scripted by the caller, and entry points to the unexported switch functions.
+
+// VerifScript decides the outcome of a handler call. phase is "enter" or
+// "exit"; state is the handler's own state; from/next are those of the switch
+// context. kind is "ok", "err", "ignore" or "redirect" (enter only; the
+// handler then returns a switch context from its own state to redirect).
+type VerifScript func(phase string, state, from, next StateType) (kind string, redirect StateType)
+
+type verifHandler struct {
+	states *States
+	script VerifScript
+	st     StateType
+}
+
+func (h *verifHandler) state() StateType { return h.st }
+
+func (h *verifHandler) outcome(phase string, sctx switchContext) error {
+	var from, next StateType
+	if sctx != nil {
+		from, next = sctx.from(), sctx.next()
+	}
+
+	switch kind, redirect := h.script(phase, h.st, from, next); kind {
+	case "err":
+		return errors.Errorf("verif stub error")
+	case "ignore":
+		return ErrIgnoreSwitchingState.Errorf("verif stub ignores")
+	case "redirect":
+		return newBaseSwitchContext(h.st, redirect)
+	default:
+		return nil
+	}
+}
+
+func (h *verifHandler) enter(_ StateType, sctx switchContext) (func(), error) {
+	return nil, h.outcome("enter", sctx)
+}
+
+func (h *verifHandler) exit(sctx switchContext) (func(), error) {
+	return nil, h.outcome("exit", sctx)
+}
+
+func (*verifHandler) newVoteproof(base.Voteproof) error { return nil }
+func (h *verifHandler) allowedConsensus() bool          { return h.states.AllowedConsensus() }
+func (*verifHandler) whenSetAllowConsensus(bool)        {}
+
+type verifNewHandler struct {
+	states *States
+	script VerifScript
+	st     StateType
+}
+
+func (n *verifNewHandler) new() (handler, error) {
+	return &verifHandler{states: n.states, script: n.script, st: n.st}, nil
+}
+
+func (n *verifNewHandler) setStates(st *States) { n.states = st }
+
+// VerifStates is a States with stub handlers, positioned in the stopped state
+// the way States.start() does it; the daemon is not started.
+type VerifStates struct {
+	*States
+}
+
+func VerifNewStates(
+	networkID base.NetworkID, local base.LocalNode, allow bool, script VerifScript, switched func(StateType),
+) (*VerifStates, error) {
+	args := NewStatesArgs()
+	args.AllowConsensus = allow
+	args.WhenStateSwitchedFunc = switched
+
+	st, err := NewStates(networkID, local, args)
+	if err != nil {
+		return nil, err
+	}
+
+	for _, s := range []StateType{
+		StateStopped, StateBooting, StateJoining, StateConsensus, StateSyncing, StateHandover, StateBroken,
+	} {
+		st.SetHandler(s, &verifNewHandler{script: script, st: s})
+	}
+
+	h, _ := st.newHandlers[StateStopped].new()
+	st.cs = h
+
+	return &VerifStates{States: st}, nil
+}
+
+// VerifEnsure runs ensureSwitchState with a plain switch context.
+func (v *VerifStates) VerifEnsure(from, next StateType) error {
+	return v.ensureSwitchState(newBaseSwitchContext(from, next))
+}
+
+// VerifSwitch runs switchState once; redirected reports whether the error is a switch context.
+func (v *VerifStates) VerifSwitch(from, next StateType) (redirected bool, redirect StateType, _ error) {
+	err := v.switchState(newBaseSwitchContext(from, next))
+
+	var sctx switchContext
+	if errors.As(err, &sctx) {
+		return true, sctx.next(), nil
+	}
+
+	return false, StateEmpty, err
+}
+
+// VerifCheck runs checkStateSwitchContext against the current handler:
+// "ok", "ignore", "redirect:<next>" or "error".
+func (v *VerifStates) VerifCheck(from, next StateType) string {
+	var sctx switchContext
+
+	switch err := v.checkStateSwitchContext(newBaseSwitchContext(from, next), v.current()); {
+	case err == nil:
+		return "ok"
+	case errors.Is(err, ErrIgnoreSwitchingState):
+		return "ignore"
+	case errors.As(err, &sctx):
+		return "redirect:" + sctx.next().String()
+	default:
+		return "error"
+	}
+}
